@@ -146,7 +146,7 @@ def _validate(ck, batches):
             raise MachineryFailure("replay error: " + str(bad[0])[:800])
         for off in range(0, len(obs), chunk):
             part = obs[off : off + chunk]
-            slim = [{k: v for k, v in o.items() if k not in ("texts", "negscale")} for o in part]
+            slim = [{k: v for k, v in o.items() if k not in ("texts", "negscale", "s", "warmups")} for o in part]
             for o in slim:
                 if o["k"] == "ast":
                     o["rt"] = [{k: v for k, v in e.items() if k not in ("text",)} for e in o["rt"]]
@@ -165,6 +165,8 @@ def _validate(ck, batches):
             c = cases[off + r["tid"] - 1]
             if o["k"] == "ast":
                 detail = {"tree": o["a"], "spelling": o["texts"][r["j"] - 1] if r["op"] == "parse-spelling" and o["texts"] else "", "rt": o["rt"][r["j"] - 1] if r["op"] != "parse-spelling" else ""}
+            elif o["k"] == "hist":
+                detail = {"input": o["s"], "cold": o["cold"][0]}
             elif o["k"] == "persist":
                 detail = {"case": [o["rk"], o["f"], o["ca"], o["rt"]], "reread": o["r"], "exc": o["exc"]}
             else:
@@ -183,6 +185,10 @@ def _validate(ck, batches):
                 key = {"clause": clause, "via": e["via"], "what": r["what"], "outcome": r["outcome"], "printed": e["text"][1:-1], "micro_alias_symbol": bool(e.get("micro")), "unit_offset": e["u"]["off"],
                        "offset_unit_in_compound": e["u"]["off"] not in ("0.0", "-0.0") and (len(e["u"]["vec"]) != 1 or e["u"]["coef"] != [1, 1] or e["u"]["vec"][0][1:] != [1, 1])}
                 detail = {"tree": o["a"], "source": e["src"], "unit": e["u"], "reread": e["r"]}
+            elif o["k"] == "hist":
+                form = ["Unit(s, registry=r)", "unyt_quantity(1, s, registry=r)", "quantity.to(s)"][r["j"] - 1]
+                key = {"clause": clause, "call": form, "warmup": o["w"], "what": r["what"] if clause == "history" else "", "outcome": r["outcome"], "input": o["s"][1:-1]}
+                detail = {"after_parsing": o["warmups"], "cold": o["cold"][r["j"] - 1], "warm": o["warm"][r["j"] - 1]}
             elif clause == "persist":
                 key = {"clause": clause, "route": o["rt"], "registry": o["rk"], "carrier": o["ca"], "form": o["f"], "what": r["what"], "outcome": r["outcome"]}
                 detail = {"written": o["w"], "reread": o["r"], "exception": o["exc"]}
@@ -267,6 +273,13 @@ def run(ck):
     # exponent forms: every float / rational spelling in every syntactic position
     gen.append(dict(module="MC_C20", cfg=_cfg(ck, "MC_C20_expform", Mode="expform", NGenNames=ck.q(2, 3), NGenCoefs=2, NGenExps=ck.q(5, 10)), env={"NAMES": p_mc},
                     workers=1, label="exponent/coefficient forms x positions", required_actions=["Next"], timeout=3000))
+    # parsing history: what a string denotes must not depend on what the registry parsed before
+    HFULL = list(range(1, 14))
+    HSUB = [1, 2, 7, 8, 9, 11, 12]  # m s 1 0 * ** (
+    for n, (lab, kw) in enumerate(ck.q([("13 tokens len<=2", dict(MaxTok=2, TokPick=HFULL)), ("7 tokens len<=3", dict(MaxTok=3, TokPick=HSUB))],
+                                       [("13 tokens len<=3", dict(MaxTok=3, TokPick=HFULL)), ("7 tokens len<=4", dict(MaxTok=4, TokPick=HSUB))])):
+        gen.append(dict(module="MC_C20", cfg=_cfg(ck, f"MC_C20_hist{n}", Mode="hist", **kw), env={"NAMES": p_mc}, workers=1,
+                        label="parsing history: " + lab + " x joiner x warm-up kind", required_actions=["Next"], timeout=3000))
     NFIX = len(gen)
     for n, (lab, kw) in enumerate(toks):
         gen.append(dict(module="MC_C20", cfg=_cfg(ck, f"MC_C20_tok{n}", Mode="tok", **kw), env={"NAMES": p_mc}, workers=1, label="token sequences " + lab, required_actions=["Next"], timeout=3000))
@@ -352,11 +365,26 @@ def run(ck):
     if ck.cov["magnitude_cases"]["extreme"] < 20:
         raise MachineryFailure("the magnitude instance produced no extreme trees")
 
+    # ---- parsing history
+    hcases = []
+    seenh = set()
+    for r in res[8].by_tag("HIST") + res[9].by_tag("HIST"):
+        k = (tuple(r["t"]), r["j"], r["w"])
+        if k not in seenh:
+            seenh.add(k)
+            hcases.append({"k": "hist", "t": r["t"], "j": r["j"], "w": r["w"], "x": r["x"]})
+    hobs = _replay(ck, hcases, rows_mc)
+    ck.cov["history_cases"] = len(hcases)
+    ck.cov["history_cold_outcomes"] = {}
+    for o in hobs:
+        if "_error" not in o:
+            ck.cov["history_cold_outcomes"][o["cold"][0]["o"]] = ck.cov["history_cold_outcomes"].get(o["cold"][0]["o"], 0) + 1
+
     # ---- validation: TLC evaluates the predicates on every observation
     _validate(ck, [(obs, cases, p_mc, "valid", 3000), (sobs, scases, p_sw, "sweep", 3000), (tobs, tcases, p_mc, "tokens", 60000), (fobs, fcases, p_mc, "fuzz", 60000),
                    (pobs, pcases, p_mc, "python", 60000), (sobs2, scases2, p_mc, "persist", 60000),
-                   (mobs, mcases, p_mag, "magnitude", 3000), (eobs, ecases, p_mc, "expforms", 3000)])
-    n_eval = sum(len(o["sp"]) + len(o["rt"]) for o in obs) + sum(len(o["sp"]) + len(o["rt"]) for o in sobs) + len(tobs) + len(fobs) + len(pobs) + len(sobs2) + sum(len(o["sp"]) + len(o["rt"]) for o in mobs + eobs)
+                   (mobs, mcases, p_mag, "magnitude", 3000), (eobs, ecases, p_mc, "expforms", 3000), (hobs, hcases, p_mc, "history", 20000)])
+    n_eval = sum(len(o["sp"]) + len(o["rt"]) for o in obs) + sum(len(o["sp"]) + len(o["rt"]) for o in sobs) + len(tobs) + len(fobs) + len(pobs) + len(sobs2) + sum(len(o["sp"]) + len(o["rt"]) for o in mobs + eobs) + 6 * len(hobs)
     n_nontrivial = len(cases) + len(scases) + sum(1 for o in tobs if o["o"] != "UnitParseError" or o["ev"]) + len(scases2) + len(set(c["s"] for c in pcases)) + len(mcases) + len(ecases)
 
     _debug_dump(ck)
